@@ -124,10 +124,12 @@ PROPS = {
         rule="shutdown-point enumeration: a rapid-drawn workload of n <= 14 steps (release of the gated first list, server changes, attaches of all kinds incl. monitors, refilters, node closes, stalled consumers, server-side watch disconnects with connect errors (retry timer pending), relists left pending at the gate; in a second job: a server-side disconnect followed by the real-time wait for the watcher's reconnect, shutdown points enumerated from there on) is re-run n+1 times on fresh worlds and the shutdown trigger {Close, 4 concurrent Close, context cancel, list error} is fired after step k for every k in 0..n, with up to 5 generated API calls {Subscribe*, Clone*, Refilter, NewMonitor, Close, Cache().List/Get} racing with it and all ten call kinds re-issued on every node after Done. Oracle: Close() returns and Done() closes within the wedge bound; every node done; zero goroutines created by library code (context still live unless it was the trigger); every call returns ErrNotRunning or a value; objects obtained while racing become done. Non-trivial = some shutdown point hit a pending relist, a pending reconnect timer, concurrent Close calls, or a not-yet-ready root with racing API calls; distinct = (trigger, gating, workload).",
         assumptions=["the fake client returns from List/Watch once its context is cancelled (the property's premise)", "wedge bound 10 s, confirmed once with 25 s more, against sub-millisecond normal latencies"],
         quick=[J("TestC12_ShutdownPoints", checks=120, shards=8, procs=[2, 4, 8, 16]),
-               J("TestC12_ShutdownPoints", checks=2, shards=24, par=48, env={"VERIF_C12_RECONNECT": "1"}, shrink="5s")],
+               J("TestC12_ShutdownPoints", checks=2, shards=24, par=48, env={"VERIF_C12_RECONNECT": "1"}, shrink="5s"),
+               J("TestC12_HungWatch", checks=150, shards=4, procs=[2, 4, 16, 1])],
         thorough=[J("TestC12_ShutdownPoints", checks=2500, shards=16, procs=[1, 2, 4, 8, 16], timeout=2400),
                   J("TestC12_ShutdownPoints", checks=600, shards=4, env={"GODEBUG": "asynctimerchan=1"}, timeout=2400),
-                  J("TestC12_ShutdownPoints", checks=25, shards=48, par=64, env={"VERIF_C12_RECONNECT": "1"}, shrink="5s", timeout=2400)],
+                  J("TestC12_ShutdownPoints", checks=25, shards=48, par=64, env={"VERIF_C12_RECONNECT": "1"}, shrink="5s", timeout=2400),
+                  J("TestC12_HungWatch", checks=5000, shards=8, procs=[1, 2, 4, 16], timeout=2400)],
     ),
     "C11": dict(
         level="exploration",
@@ -168,8 +170,8 @@ PROPS = {
         level="exploration",
         rule="rapid state machines over a real controller fed by the fake API server and a generated tree (depth <= 3) mixing Subscribe/SubscribeWithFilter/SubscribeForFilter/Clone/CloneWithFilter/CloneForFilter: operations put/del (labels move objects in and out of filters), attach, Refilter over a 10-filter family (equal, overlapping, disjoint, accept-all, accept-none, non-comparable FN), lost watch events followed by gated relists. Quiet mode: double-marker barrier after every operation, then every live node's cache must equal the conjunction of the reference predicates on its path applied to the controller's view, its strict mirror must equal its cache, readiness must match the readiness model. Racy mode: server traffic and Refilter scripts run concurrently under logger-driven schedule perturbation, oracles at a final barrier. Non-trivial = tree with a filtered node below a filtered node, a Refilter on a ready node and an object that crossed a filter boundary by update; distinct = hash of the operation history.",
         assumptions=["controller-level and node filters are wrapped as Or(f, NSName(zz/*)) so that barrier markers pass; oracles ignore namespace zz", "interleavings are perturbed (logger yields/sleeps, GOMAXPROCS), not enumerated"],
-        quick=[J("TestC06_Quiet", checks=500, shards=5), J("TestC06_Racy", checks=500, shards=5, procs=[2, 4, 8, 16, 1])],
-        thorough=[J("TestC06_Quiet", checks=12000, shards=8, timeout=2400), J("TestC06_Racy", checks=12000, shards=8, procs=[1, 2, 4, 16], timeout=2400)],
+        quick=[J("TestC06_Quiet", checks=500, shards=5), J("TestC06_Racy", checks=500, shards=5, procs=[2, 4, 8, 16, 1]), J("TestC06_FilterSubscriptionModel", checks=600, shards=4, procs=[2, 4, 1, 16])],
+        thorough=[J("TestC06_Quiet", checks=12000, shards=8, timeout=2400), J("TestC06_Racy", checks=12000, shards=8, procs=[1, 2, 4, 16], timeout=2400), J("TestC06_FilterSubscriptionModel", checks=25000, shards=8, procs=[1, 2, 4, 16], timeout=2400)],
     ),
     "C15": dict(
         level="exploration",
